@@ -15,6 +15,7 @@ A failing obligation means the code moved away from the model (GoZero/C06/Model.
 -/
 import GoZero.Extracted.C06
 import GoZero.C06.Spec
+import GoZero.C06.Calls
 namespace GoZero.C06.Tie
 open GoZero.C06
 open GoZero.Extracted.C06
@@ -893,5 +894,35 @@ theorem tie_aroundExpr_rational (p qd j base : Rat) (hq : qd ≠ 0) :
     aroundExpr (p / qd) (j / 1000) base = ((qd + p) * 1000 - 2 * p * j) * base / (qd * 1000) := by
   unfold aroundExpr
   grind
+
+/-! ### round 5: the call object of a flight, and the caller's options at every constructor hop -/
+
+/-- `createCall` obtains the call object with `new(call)` (or `&call{}`): an object nobody else holds — the
+allocator `Calls.Alloc.fresh` the theorems of PropsCalls.lean are proven for.  A pool / cache / parameter is
+classified `other:…` and fails this obligation (the pooled allocator has the witness
+`pooled_call_object_hands_a_reader_the_result_of_another_key`). -/
+theorem tie_createCallAlloc : Calls.allocOfSource createCallAlloc = some .fresh := by decide
+
+/-- nobody but `makeCall` (from Do / DoEx) is ever handed the call object: it is not put into a pool, a channel
+wrapper or a registry from which another flight could get it while followers still hold it. -/
+theorem tie_callObjectStaysPrivate : callObjectHandedTo = ["Do:g.makeCall", "DoEx:g.makeCall"] := by decide
+
+/-- every constructor hop hands the function's own `opts` on, spread, in EVERY call of the next constructor
+(cache.New: both the single-node shortcut and the loop over the cluster's nodes) … -/
+theorem tie_optsForwardedAtEveryHop (c : Multi.Ctor) : (Multi.hops c).all (Multi.hopForwards optsForwarding) = true := by
+  cases c <;> simp only [Multi.hops] <;> decide
+
+/-- … so the nodes of an instance built by ANY constructor run with exactly the caller's options, for every
+Options value (`Cfg.ofOptions` of the instance's own options is what the driver and PropsInstances use). -/
+theorem tie_optionsReachTheNodes (c : Multi.Ctor) (o : Options) : Multi.optsAtNode ({} : Options) optsForwarding c o = o := by
+  unfold Multi.optsAtNode
+  rw [tie_optsForwardedAtEveryHop c]; simp
+
+/-- the `Must…` constructors of monc hand their options on as well. -/
+theorem tie_mustNewForward : Multi.hopForwards optsForwarding "monc.MustNewModel" = true
+    ∧ Multi.hopForwards optsForwarding "monc.MustNewNodeModel" = true := by decide
+
+/-- NewNode configures the node with the two fields of `newOptions(opts...)`, each into its own field. -/
+theorem tie_newNodeOptionFields : newNodeOptionFields = ["expr:o.Expiry", "expr:o.NotFoundExpiry"] := by decide
 
 end GoZero.C06.Tie
